@@ -65,6 +65,7 @@ class Registry:
         self.abs_isinstance = {}
         self.order = []                 # FnInfo in emission order
         self.class_nodes = {}           # every class of the parsed files (for base-class lookup)
+        self.builders = {}              # classes that are only constructed and sent commands
 
     def method(self, ci, name):
         return ci.methods.get(name)
@@ -312,6 +313,7 @@ def run_specs(specs):
     reg = Registry()
     reg.abstracts = specs.ABSTRACTS
     reg.abs_isinstance = specs.ABS_ISINSTANCE
+    reg.builders = getattr(specs, "BUILDERS", {})
     trees = {}
     for item in specs.ITEMS:
         rel = item["file"]
